@@ -805,6 +805,10 @@ struct Case13 {
     trip_mid_batch: bool,
     /// abrupt: crash image = sub.sqlite WAL cut after this many commit frames (None: graceful)
     wal_commits: Option<usize>,
+    /// abrupt stop inside a graceful shutdown: the image is taken after the trip and the late
+    /// transactions, while the handles are still alive (the draining window)
+    #[serde(default)]
+    kill_in_drain: bool,
 }
 
 fn tx13(k: usize) -> Vec<Statement> {
@@ -904,7 +908,7 @@ fn run_case13(tpl: &Template, case: &Case13) -> Out13 {
         }
         let id = sub.handle.id();
         let sub_db = klukai_types::pubsub::Matcher::sub_db_path(subs_path.as_path(), id);
-        if case2.wal_commits.is_some() {
+        if case2.wal_commits.is_some() && !case2.kill_in_drain {
             // abrupt: take the files as they are; the caller cuts the WAL
             let wal = std::fs::read(format!("{sub_db}-wal")).unwrap_or_default();
             let main = std::fs::read(sub_db.as_std_path()).unwrap_or_default();
@@ -950,6 +954,14 @@ fn run_case13(tpl: &Template, case: &Case13) -> Out13 {
                     machinery_error("broadcast task of a late transaction did not finish");
                 }
             }
+        }
+        if case2.kill_in_drain {
+            // the process dies here: shutdown was requested, the late transactions are committed on
+            // the node database, the matcher is draining (its handles are still alive)
+            tokio::time::sleep(Duration::from_millis(5)).await;
+            let wal = std::fs::read(format!("{sub_db}-wal")).unwrap_or_default();
+            let main = std::fs::read(sub_db.as_std_path()).unwrap_or_default();
+            return (id, last_id, Some((main, wal)), true);
         }
         if case2.trip_mid_batch {
             GATE_OPEN.store(true, SeqCst);
@@ -1085,6 +1097,7 @@ fn run_case13(tpl: &Template, case: &Case13) -> Out13 {
                 return viol;
             }
         };
+        let handles_before = klukai_types::spawn::PENDING_HANDLES.load(std::sync::atomic::Ordering::SeqCst);
         let (st, _b) = klukai_agent::api::public::api_v1_transactions(
             axum::Extension(agent.clone()),
             axum::extract::Query(klukai_agent::api::public::TimeoutParams { timeout: None }),
@@ -1093,6 +1106,16 @@ fn run_case13(tpl: &Template, case: &Case13) -> Out13 {
         .await;
         if !st.is_success() {
             machinery_error("post-restart write failed");
+        }
+        // the write's candidates reach the matcher through a counted task: wait for it to finish
+        {
+            let start = Instant::now();
+            while klukai_types::spawn::PENDING_HANDLES.load(std::sync::atomic::Ordering::SeqCst) > handles_before {
+                tokio::time::sleep(Duration::from_micros(300)).await;
+                if start.elapsed() > Duration::from_secs(20) {
+                    machinery_error("C13: the post-restart write's broadcast task did not finish");
+                }
+            }
         }
         // barrier through the restored matcher
         let id = sub_id.to_string();
@@ -1103,8 +1126,6 @@ fn run_case13(tpl: &Template, case: &Case13) -> Out13 {
             keys.insert(pack_columns(&[SqliteValue::Integer(9_000_000 + i)]).unwrap(), 1i64);
         }
         cand.insert(TableName(qtable.into()), keys);
-        // the write's own candidates travel through a spawned task: give it a moment first
-        tokio::time::sleep(Duration::from_millis(20)).await;
         handle.changes_tx().send(cand).await.unwrap();
         let start = Instant::now();
         while emit_count(&id) == before {
@@ -1114,13 +1135,20 @@ fn run_case13(tpl: &Template, case: &Case13) -> Out13 {
                 return viol;
             }
         }
-        tokio::time::sleep(Duration::from_millis(5)).await;
+        // the event goes from the matcher through the forwarder to the broadcast channel: wait for it
+        // (up to 5 s; its absence after that is the violation below)
         let mut first_new = None;
-        while let Ok((_bytes, meta)) = brx.try_recv() {
-            if let klukai_types::api::QueryEventMeta::Change(id) = meta {
-                if first_new.is_none() {
-                    first_new = Some(id.0);
+        let wait_start = Instant::now();
+        while first_new.is_none() && wait_start.elapsed() < Duration::from_secs(5) {
+            while let Ok((_bytes, meta)) = brx.try_recv() {
+                if let klukai_types::api::QueryEventMeta::Change(id) = meta {
+                    if first_new.is_none() {
+                        first_new = Some(id.0);
+                    }
                 }
+            }
+            if first_new.is_none() {
+                tokio::time::sleep(Duration::from_millis(1)).await;
             }
         }
         match first_new {
@@ -1160,7 +1188,7 @@ fn c13(cli: &Cli) {
         for before in 0..=maxb {
             for after_trip in 0..=2 {
                 for mid in [false, true] {
-                    cases.push(Case13 { query: q, before, after_trip, trip_mid_batch: mid, wal_commits: None });
+                    cases.push(Case13 { query: q, before, after_trip, trip_mid_batch: mid, wal_commits: None, kill_in_drain: false });
                 }
             }
         }
@@ -1192,15 +1220,34 @@ fn c13(cli: &Cli) {
     // abrupt stops: every commit boundary of the subscription database's log
     'ab: for q in 0..Q13.len() {
         for before in 0..=maxb {
-            let probe = Case13 { query: q, before, after_trip: 0, trip_mid_batch: false, wal_commits: Some(usize::MAX) };
+            let probe = Case13 { query: q, before, after_trip: 0, trip_mid_batch: false, wal_commits: Some(usize::MAX), kill_in_drain: false };
             let n = run(&probe, &rep, &mut execs);
             for cut in 0..n {
                 if Instant::now() > deadline {
                     capped = Some("wall-clock cap during abrupt-stop enumeration".to_string());
                     break 'ab;
                 }
-                let c = Case13 { query: q, before, after_trip: 0, trip_mid_batch: false, wal_commits: Some(cut) };
+                let c = Case13 { query: q, before, after_trip: 0, trip_mid_batch: false, wal_commits: Some(cut), kill_in_drain: false };
                 run(&c, &rep, &mut execs);
+            }
+        }
+    }
+    // abrupt stop inside the draining window of a graceful shutdown (trip, 0..2 late transactions,
+    // then the process dies while the matcher still drains): the image as it is, and cut after each
+    // of its last commit frames
+    'dr: for q in 0..Q13.len() {
+        for before in 0..=maxb.min(2) {
+            for after_trip in 0..=2 {
+                let probe = Case13 { query: q, before, after_trip, trip_mid_batch: false, wal_commits: Some(usize::MAX), kill_in_drain: true };
+                let n = run(&probe, &rep, &mut execs);
+                for cut in n.saturating_sub(2)..n {
+                    if Instant::now() > deadline {
+                        capped = Some("wall-clock cap during kill-in-drain enumeration".to_string());
+                        break 'dr;
+                    }
+                    let c = Case13 { query: q, before, after_trip, trip_mid_batch: false, wal_commits: Some(cut), kill_in_drain: true };
+                    run(&c, &rep, &mut execs);
+                }
             }
         }
     }
